@@ -50,6 +50,37 @@ def startup_stage(thorough, violations, stats):
                         violations.append((PROP, "the modulator (which performs Auth) could not be asked for its operations when the server was built: CONNECT_ACK announces auth_required=false", c, t))
 
 
+def token_injection_histories(r, thorough):
+    """two connections authenticate at the same time through the real S2M wire path; the second one's token contains a blank
+    the wire format must quote (tab, vertical tab, form feed, CR, space) followed by text that looks like a parameter
+    (`id=<n>`, `token=..`): the modulator must see exactly that token, and its verdict must reach the connection that sent it,
+    never the request that happens to be pending under that id"""
+    cases = []
+    blanks = [b"\x0b", b"\x0c", b"\t", b"\r", b" "]
+    for i in range(15 if thorough else 5):
+        cfg = sl.base_cfg(r, {"ops": ["auth"], "proto": "P/1"})
+        cfg.update({"max_conns": 16, "max_inflight": 10})
+        bl = blanks[i % len(blanks)]
+        n = 1 + (i // len(blanks)) % 3
+        ops = [{"t": "open", "k": 1},
+               {"t": "send", "k": 1, "bytes": sl.frame("CONNECT", [("version", 1), ("heartbeat_interval", 0)]).hex(), "script": []},
+               {"t": "send", "k": 1, "bytes": sl.frame("AUTH", [("token", "victim-token")]).hex(), "script": [{"park": 1}]},
+               {"t": "open", "k": 2},
+               {"t": "send", "k": 2, "bytes": sl.frame("CONNECT", [("version", 1), ("heartbeat_interval", 0)]).hex(), "script": []},
+               {"t": "send", "k": 2, "bytes": sl.frame("AUTH", [("token", b"x" + bl + b"id=%d" % n)]).hex(), "script": [{"auth_success": b"mallory".hex()}]},
+               {"t": "release", "id": 1, "outcome": "auth_fail"},
+               {"t": "advance", "ms": 200}]
+        # through the real wire path, on ONE link (so that both requests are pending on the same connection), with a client
+        # time-out long enough for the first request to be still pending when the second one is answered
+        m = cfg["mod"]
+        m["ops"] = ["auth", "fwd-broadcast-payload", "recv-private-payload"]
+        m["via"] = "s2m"
+        m["link"] = dict(sl.VIA_LINK, client_timeout_ms=5000, idle_conns=1)
+        cfg.update({"min_keepalive_ms": 3600000, "keepalive_ms": 3600000, "settle_ms": 100})
+        cases.append({"cfg": cfg, "ops": ops, "nomodel": True})
+    return cases
+
+
 def run(tier, replay=None):
-    return srvprops.run(PROP, THEOREMS, tier, replay, extra_gen=sl.outage_histories, link=("link", "client"), extra_stage=startup_stage,
+    return srvprops.run(PROP, THEOREMS, tier, replay, extra_gen=lambda r, th: sl.outage_histories(r, th) + token_injection_histories(r, th), link=("link", "client"), extra_stage=startup_stage,
                         rule_note=LINK_NOTE + " Start-up stage: the modulator's operations() fails while the dispatcher factory is built (once, twice, always): the server must not come up in open mode.")
